@@ -63,7 +63,7 @@ ReqE ==
          runnable   == SelectSeq(r.mem, LAMBDA m : m.k \in {"call", "note"})
      IN CASE r.kind = "notpost"    -> Imp("C18", Ev.status = 405)
           [] r.kind \in {"badtype", "badcharset"} -> Imp("C18", Ev.status = 415)
-          [] r.kind = "garbage"    -> Imp("C18", Ev.status >= 400)
+          [] r.kind \in {"garbage", "trailing"} -> Imp("C18", Ev.status >= 400)     \* not valid JSON (also: a valid value followed by more bytes)
           [] r.kind = "emptyarr"   -> TRUE                               \* valid JSON with nothing to answer: status left open
           [] OTHER ->
                \* every call ran its handler exactly once, and it has returned (notifications are not waited for: see Final)
